@@ -2,6 +2,14 @@
 //! (push / extend / serialize through `Serializer::new(&mut builder)` / to_marrow), including builds of zero
 //! rows and repeated builds; every build is dumped, and the one-shot `to_marrow` of the same batch is recorded
 //! as a metamorphic oracle.
+//!
+//! API coverage (notes/api_coverage.md): a third of the builders is made with `ArrayBuilder::new(SerdeArrowSchema)`
+//! instead of `ArrayBuilder::from_marrow(fields)` (the schema comes from `SerdeArrowSchema::try_from(&[arrow Field])` or
+//! from `SerdeArrowSchema::from_value(&fields)` and is only used when it observably holds exactly the given fields); `ser_owned` moves the builder into
+//! `Serializer::new(builder)` and takes it back with `into_inner()`; batches also arrive in every other shape the two
+//! front ends accept (tuple variant, newtype struct / variant around a sequence, `Some(sequence)`), and a few
+//! histories end with a value that is not a collection of records (refused by both front ends).  Errors are recorded
+//! together with the view of the public `Error` accessors (`outcome::run_sa`).
 use crate::dump;
 use crate::gen_schema::{self, ValCfg};
 use crate::outcome;
@@ -42,7 +50,47 @@ pub fn gen(ctx: &Ctx) -> Vec<Value> {
             }
         }
         ops.push(json!({"op": "build"}));
-        out.push(json!({"id": format!("hist-{c:06}"), "seed": sub, "schema": schema, "ops": ops}));
+        // API coverage: choices from a stream of their own (the histories above stay what they were)
+        let mut x = Rng::new(sub ^ 0xA91_C07E);
+        let ctor = match x.below(6) {
+            0 => "new",
+            1 => "new_value",
+            _ => "from_marrow",
+        };
+        for op in ops.iter_mut() {
+            let kind = op["op"].as_str().unwrap().to_string();
+            if kind == "ser" && x.chance(1, 3) {
+                op["op"] = json!("ser_owned");
+            }
+            if kind == "ser" && x.chance(1, 4) {
+                op["as"] = json!(*x.pick(&["tuple_variant", "newtype_struct", "newtype_variant"]));
+            }
+            if kind == "extend" && x.chance(1, 5) {
+                op["as"] = json!(*x.pick(&["newtype_struct", "some"]));
+            }
+        }
+        if x.chance(1, 12) {
+            let op = *x.pick(&["ser", "ser_owned", "extend"]);
+            // `extend` treats a unit / None as one null record (not generated here); `Serializer` refuses every scalar
+            let as_ = if op == "extend" {
+                *x.pick(&["not:i32", "not:bool", "not:str", "not:map", "not:struct", "not:unit_variant"])
+            } else {
+                *x.pick(&[
+                    "not:i32", "not:bool", "not:str", "not:map", "not:struct", "not:unit_variant", "not:none", "not:some", "not:unit",
+                    "not:unit_struct", "not:bytes", "not:char", "not:f32", "not:f64", "not:i8", "not:i16", "not:i64", "not:u8", "not:u16",
+                    "not:u32", "not:u64", "not:struct_variant",
+                ])
+            };
+            ops.push(json!({"op": op, "as": as_, "rows": []}));
+        }
+        if ops.last().map(|o| o["op"] == "build").unwrap_or(false) && x.chance(1, 25) {
+            // errors made by the USER of the crate: a `Serialize` impl that fails with `S::Error::custom` under `push`, and
+            // the public constructors `Error::custom` / `Error::custom_from` / `serde::de::Error::custom`
+            let via = *x.pick(&["ser", "ser", "custom", "custom_from", "de"]);
+            let text = *x.pick(&["boom", "two\nlines", "ünï 😀", "", "trailing space "]);
+            ops.push(json!({"op": "user_error", "via": via, "text": text}));
+        }
+        out.push(json!({"id": format!("hist-{c:06}"), "seed": sub, "schema": schema, "ctor": ctor, "ops": ops}));
     }
     out
 }
@@ -51,7 +99,63 @@ fn wrap(as_: &str, rows: &[Value]) -> Value {
     match as_ {
         "tuple" => json!({"k": "tuple", "v": rows}),
         "tuple_struct" => json!({"k": "tuple_struct", "n": "Batch", "v": rows}),
+        "tuple_variant" => json!({"k": "tuple_variant", "n": "Batch", "i": 1, "vn": "Rows", "v": rows}),
+        "newtype_struct" => json!({"k": "newtype_struct", "n": "Batch", "v": {"k": "seq", "v": rows}}),
+        "newtype_variant" => json!({"k": "newtype_variant", "n": "Batch", "i": 0, "vn": "Rows", "v": {"k": "seq", "v": rows}}),
+        "some" => json!({"k": "some", "v": {"k": "seq", "v": rows}}),
+        // not a collection of records
+        "not:i32" => json!({"k": "i32", "v": 7}),
+        "not:bool" => json!({"k": "bool", "v": true}),
+        "not:str" => json!({"k": "str", "v": "rows"}),
+        "not:map" => json!({"k": "map", "e": []}),
+        "not:struct" => json!({"k": "struct", "n": "Batch", "f": []}),
+        "not:unit_variant" => json!({"k": "unit_variant", "n": "Batch", "i": 0, "vn": "Rows"}),
+        "not:none" => json!({"k": "none"}),
+        "not:some" => json!({"k": "some", "v": {"k": "i32", "v": 7}}),
+        "not:unit" => json!({"k": "unit"}),
+        "not:unit_struct" => json!({"k": "unit_struct", "n": "Batch"}),
+        "not:bytes" => json!({"k": "bytes", "v": "00ff"}),
+        "not:char" => json!({"k": "char", "v": 97}),
+        "not:f32" => json!({"k": "f32", "bits": 0}),
+        "not:f64" => json!({"k": "f64", "bits": 0}),
+        "not:i8" | "not:i16" | "not:i64" | "not:u8" | "not:u16" | "not:u32" | "not:u64" => json!({"k": &as_[4..], "v": 7}),
+        "not:struct_variant" => json!({"k": "struct_variant", "n": "Batch", "i": 0, "vn": "Rows", "f": []}),
         _ => json!({"k": "seq", "v": rows}),
+    }
+}
+
+/// `ArrayBuilder::new(schema)` needs a `SerdeArrowSchema`; the only public ways to one from marrow fields go through a
+/// foreign field list (`try_from(&[arrow Field])`) or the serde form (`from_value`, which validates).  The conversion is
+/// used when the schema it gives observably holds exactly `fields` (read back through `Vec<FieldRef>::try_from`).
+fn schema_of(fields: &[marrow::datatypes::Field], via_value: bool) -> Option<serde_arrow::schema::SerdeArrowSchema> {
+    use serde_arrow::schema::{SchemaLike, SerdeArrowSchema};
+    std::panic::catch_unwind(|| {
+        let schema = if via_value {
+            // the validating path: the marrow fields as a foreign schema value (may refuse or normalise: then not used)
+            SerdeArrowSchema::from_value(fields).ok()?
+        } else {
+            let arrow: Vec<arrow_schema::Field> = fields.iter().map(arrow_schema::Field::try_from).collect::<Result<_, _>>().ok()?;
+            SerdeArrowSchema::try_from(&arrow[..]).ok()?
+        };
+        let refs = Vec::<arrow_schema::FieldRef>::try_from(&schema).ok()?;
+        let back: Vec<marrow::datatypes::Field> =
+            refs.iter().map(|f| marrow::datatypes::Field::try_from(f.as_ref())).collect::<Result<_, _>>().ok()?;
+        if back == fields {
+            Some(schema)
+        } else {
+            None
+        }
+    })
+    .ok()
+    .flatten()
+}
+
+/// a record whose `Serialize` impl fails on its own account
+struct Failing<'a>(&'a str);
+
+impl Serialize for Failing<'_> {
+    fn serialize<S: serde::Serializer>(&self, _: S) -> Result<S::Ok, S::Error> {
+        Err(<S::Error as serde::ser::Error>::custom(self.0))
     }
 }
 
@@ -59,31 +163,67 @@ pub fn exec(input: &Value) -> Value {
     let fields: Vec<marrow::datatypes::Field> = input["schema"].as_array().unwrap().iter().map(field_from_json).collect();
     let mut outs: Vec<Value> = Vec::new();
     let mut oneshots: Vec<Value> = Vec::new();
-    let made = outcome::run(|| serde_arrow::ArrayBuilder::from_marrow(&fields).map(|_| Value::Null));
+    let schema = match input["ctor"].as_str() {
+        Some("new") => schema_of(&fields, false),
+        Some("new_value") => schema_of(&fields, true),
+        _ => None,
+    };
+    let ctor_used = if schema.is_some() { input["ctor"].as_str().unwrap() } else { "from_marrow" };
+    let make = || match &schema {
+        Some(s) => serde_arrow::ArrayBuilder::new(s.clone()),
+        None => serde_arrow::ArrayBuilder::from_marrow(&fields),
+    };
+    let made = outcome::run_sa(|| make().map(|_| Value::Null));
     if outcome::is_ok(&made) {
-        let mut builder = serde_arrow::ArrayBuilder::from_marrow(&fields).unwrap();
+        let mut builder = make().unwrap();
         let mut batch: Vec<Value> = Vec::new();
         for op in input["ops"].as_array().unwrap() {
             let kind = op["op"].as_str().unwrap();
             let res = match kind {
                 "push" => {
                     batch.push(op["row"].clone());
-                    outcome::run(|| builder.push(&SVal(&op["row"])).map(|_| Value::Null))
+                    outcome::run_sa(|| builder.push(&SVal(&op["row"])).map(|_| Value::Null))
                 }
                 "extend" => {
                     let rows = op["rows"].as_array().unwrap();
                     batch.extend(rows.iter().cloned());
                     let v = wrap(op["as"].as_str().unwrap(), rows);
-                    outcome::run(|| builder.extend(&SVal(&v)).map(|_| Value::Null))
+                    outcome::run_sa(|| builder.extend(&SVal(&v)).map(|_| Value::Null))
                 }
                 "ser" => {
                     let rows = op["rows"].as_array().unwrap();
                     batch.extend(rows.iter().cloned());
                     let v = wrap(op["as"].as_str().unwrap(), rows);
-                    outcome::run(|| SVal(&v).serialize(serde_arrow::Serializer::new(&mut builder)).map(|_| Value::Null))
+                    outcome::run_sa(|| SVal(&v).serialize(serde_arrow::Serializer::new(&mut builder)).map(|_| Value::Null))
+                }
+                "ser_owned" => {
+                    // the builder moves into the serializer and comes back through `into_inner` (on an error it is gone
+                    // with the serializer: the history ends there, on a fresh builder)
+                    let rows = op["rows"].as_array().unwrap();
+                    batch.extend(rows.iter().cloned());
+                    let v = wrap(op["as"].as_str().unwrap(), rows);
+                    let owned = std::mem::replace(&mut builder, make().unwrap());
+                    let mut back = None;
+                    let r = outcome::run_sa(|| {
+                        back = Some(SVal(&v).serialize(serde_arrow::Serializer::new(owned))?.into_inner());
+                        Ok(Value::Null)
+                    });
+                    if let Some(b) = back {
+                        builder = b;
+                    }
+                    r
+                }
+                "user_error" => {
+                    let text = op["text"].as_str().unwrap().to_string();
+                    match op["via"].as_str().unwrap() {
+                        "ser" => outcome::run_sa(|| builder.push(&Failing(&text)).map(|_| Value::Null)),
+                        "custom" => outcome::run_sa(|| Err(serde_arrow::Error::custom(text.clone()))),
+                        "custom_from" => outcome::run_sa(|| Err(serde_arrow::Error::custom_from(text.clone(), std::fmt::Error))),
+                        _ => outcome::run_sa(|| Err(<serde_arrow::Error as serde::de::Error>::custom(&text))),
+                    }
                 }
                 "build" => {
-                    let r = outcome::run(|| builder.to_marrow().map(|arrs| Value::Array(arrs.iter().map(dump::array_to_json).collect())));
+                    let r = outcome::run_sa(|| builder.to_marrow().map(|arrs| Value::Array(arrs.iter().map(dump::array_to_json).collect())));
                     // metamorphic oracle: the one-shot conversion of exactly this batch
                     let rows = std::mem::take(&mut batch);
                     let v = json!({"k": "seq", "v": rows});
@@ -105,6 +245,7 @@ pub fn exec(input: &Value) -> Value {
     let obj = case.as_object_mut().unwrap();
     obj.insert("aux".into(), gen_schema::aux_for(&input["schema"], &input["ops"]));
     obj.insert("ctor".into(), made);
+    obj.insert("ctor_used".into(), json!(ctor_used));
     obj.insert("impl".into(), Value::Array(outs));
     obj.insert("oneshot".into(), Value::Array(oneshots));
     case
